@@ -822,7 +822,7 @@ def run(ctx: Ctx):
     from common import pyhap_debug_logging
 
     saved = ctx.budget_scale
-    ctx.budget_scale = 0.2
+    ctx.budget_scale = 0.2 * saved
     try:
         with pyhap_debug_logging():
             _DEBUG_LOGGING[0] = True
